@@ -470,6 +470,32 @@ def chunking_long(k, pat, cutsel, lim=70000):
     return "ok"
 
 
+def chunking_text(i, cutsel, crlf):
+    """content corpus: an event whose JSON payload carries the i-th 'active' text RAW (as ensure_ascii=False
+    encoders emit it: U+2028/2029/0085, BOM, form feed ... are legal inside a JSON string), followed by a small
+    event; cut as in chunking_long"""
+    data = _json.dumps({"jsonrpc": "2.0", "method": "notifications/message", "params": {"d": _sizes.pick_text(i)}}, ensure_ascii=False)
+    nl = "\r\n" if crlf else "\n"
+    head = ("event: message" + nl + "data: " + data).encode("utf-8")
+    text = head + (nl + nl).encode() + ("event: message" + nl + "data: " + NOTE1 + nl + nl).encode("utf-8")
+    if cutsel == 0:
+        c = max(len(head) - 3, 0)
+        parts = [text[:c], text[c:]]
+    elif cutsel == 1:
+        c = len(head) // 2
+        parts = [text[:c], text[c:]]
+    elif cutsel == 2:
+        parts = [text[a:a + 7] for a in range(0, len(text), 7)]
+    else:
+        parts = [text]
+    got, r = _parse_with_chunks(parts)
+    if r != "ok":
+        return r
+    if got != [("message", data), ("message", NOTE1)]:
+        return "event-with-active-text-not-delivered-exactly-once-in-order:%d" % len(got)
+    return "ok"
+
+
 # ------------------------------------------------------------------ (b) live-or-raise
 def announce_text(form):
     if form == 0:
